@@ -129,6 +129,8 @@ func errClass(err string) string {
 		return "tokens"
 	case strings.Contains(err, "negative coin amount"):
 		return "negcoin"
+	case strings.Contains(err, "Int overflow"):
+		return "overflow"
 	case strings.Contains(err, "redelegation to this validator already in progress"):
 		return "transitive"
 	}
